@@ -25,7 +25,7 @@ RULE = ("seeded base circuits on 2n visible modes, n=1..3: random products of si
         "the qubit rails); callback results as dict or SamplingResult; distinct = (n, gate sequence, herald placement "
         "class); non-trivial = state with complex off-diagonals or entanglement or ancillas")
 MANDATORY = ["nonzero_Y_expectation", "entangled_state", "direct_herald_not_last", "private_ancillas", "n1", "n2", "n3",
-             "sampling_result_callback"]
+             "sampling_result_callback", "tomography_object_reused_after_edit"]
 DECIDING = ["callback_circuits_checked", "process_postconditions"]
 BUDGET = {"quick": 30, "thorough": 480}
 ASSUMPTIONS = ["prepared state = base circuit applied to |0..0> in dual-rail encoding, conditioned on heralds and one "
@@ -86,7 +86,7 @@ def make_base(ctx, lw, rng, n):
         log.append(["herald", 0, pos])
         if pos != 2 * n:
             ctx.bucket("direct_herald_not_last")
-    return base, log, ent, direct
+    return base, log, ent, direct, offs
 
 
 def run(ctx):
@@ -98,7 +98,7 @@ def run(ctx):
     while not ctx.out_of_time():
         n = int(rng.choice([1, 1, 2, 2, 2, 3])) if ctx.tier == "thorough" else int(rng.choice([1, 1, 2, 2, 2, 2, 3]))
         try:
-            base, log, ent, direct = make_base(ctx, lw, rng, n)
+            base, log, ent, direct, offs = make_base(ctx, lw, rng, n)
         except Exception as e:  # noqa: BLE001
             ctx.count("construction_raised:" + type(e).__name__)
             circmon.drain()
@@ -206,6 +206,29 @@ def run(ctx):
         if circmon.circuit_fingerprint(base, with_unitary=True) != fp:
             ctx.violation("the base circuit changed", case=case, mechanism="base_changed" + mech_suffix,
                           monitor="base circuit fingerprint")
+        # the same long-lived StateTomography object after its base circuit was edited in place
+        if rng.random() < 0.3:
+            try:
+                qi = int(rng.integers(n))
+                gate, desc = random_1q(lw, rng)
+                base.add(gate, offs[qi])
+                ctx.bucket("tomography_object_reused_after_edit")
+                m2 = tomoref.dual_rail_matrix(base, n)
+                psi2 = m2[:, 0]
+                if np.linalg.norm(psi2) > 1e-6:
+                    psi2 = psi2 / np.linalg.norm(psi2)
+                    rho2_exp = np.outer(psi2, psi2.conj())
+                    m_base = m2            # the callback identifies circuits against the edited base
+                    seen["settings"].clear()
+                    rho2 = st.process()
+                    d2 = float(np.max(np.abs(rho2 - rho2_exp)))
+                    if d2 > 1e-8:
+                        ctx.violation(f"after editing the base circuit in place, process() on the same object gives a rho "
+                                      f"that differs from the new |psi><psi| by {d2:.3g}", case={**case, "edit": desc + [qi]},
+                                      mechanism="rho_value_after_in_place_edit", monitor="StateTomography.process post-condition")
+            except Exception as e:  # noqa: BLE001
+                ctx.violation(f"second process() raised {type(e).__name__}: {e}", case=case,
+                              mechanism="state_tomography_raised_on_reuse:" + type(e).__name__, monitor="driver")
         ctx.case((n, tuple(tuple(map(str, g)) for g in log), direct), bool(y_exp > 0.05 or ent or direct != "none"),
                  sample=case)
         drain_into(ctx, case)
